@@ -24,6 +24,29 @@ pub const BUF_ARRAY: u8 = 0;
 pub const BUF_FIXED: u8 = 1;
 pub const BUF_GROWING: u8 = 2;
 
+/// burst sizes of push / pop in mode 3
+const BURST: [usize; 4] = [1, 4, 16, 40];
+const ARRAY96: usize = 96;
+
+/// A backing array as described in the documentation of `RealArray`.
+pub struct Array96([Tagged; ARRAY96]);
+
+unsafe impl futures_intrusive::buffer::RealArray<Tagged> for Array96 {
+    const LEN: usize = ARRAY96;
+}
+
+impl AsMut<[Tagged]> for Array96 {
+    fn as_mut(&mut self) -> &mut [Tagged] {
+        &mut self.0
+    }
+}
+
+impl AsRef<[Tagged]> for Array96 {
+    fn as_ref(&self) -> &[Tagged] {
+        &self.0
+    }
+}
+
 impl World for RingBufWorld {
     fn id(&self) -> u8 {
         8
@@ -47,6 +70,12 @@ impl World for RingBufWorld {
                 v.push(Cfg { flavour: 0, mode: 2, x, y, k: 0, sw: 0 });
             }
         }
+        // a user provided `RealArray` newtype (96 slots, neither <= 64 nor a power of two), as the
+        // trait's documentation invites; x = number of push+pop pairs that rotate the indices
+        // first, pushes and pops come in bursts of 1 / 4 / 16 / 40
+        for x in [0u8, 31, 63, 95] {
+            v.push(Cfg { flavour: 0, mode: 3, x, y: BUF_ARRAY, k: 0, sw: 0 });
+        }
         v
     }
     fn enum_configs(&self, tier: Tier) -> Vec<(Cfg, usize)> {
@@ -59,10 +88,25 @@ impl World for RingBufWorld {
         }
         v
     }
-    fn specs(&self, _cfg: &Cfg) -> Vec<OpSpec> {
-        vec![spec("push", 30, 0, 0), spec("pop", 24, 0, 0), spec("observe", 2, 0, 0), spec("drop_value", 6, 3, 0)]
+    fn specs(&self, cfg: &Cfg) -> Vec<OpSpec> {
+        let bursts = if cfg.mode == 3 { BURST.len() as u8 } else { 0 };
+        vec![spec("push", 30, 0, bursts), spec("pop", 24, 0, bursts), spec("observe", 2, 0, 0), spec("drop_value", 6, 3, 0)]
     }
     fn run(&self, cfg: &Cfg, ops: &[Op], run: &mut Run) {
+        if cfg.mode == 3 {
+            let mut ex: Vec<Op> = Vec::new();
+            for _ in 0..cfg.x {
+                ex.push(Op { code: OP_PUSH, a: 0, b: 0 });
+                ex.push(Op { code: OP_POP, a: 0, b: 0 });
+            }
+            for op in ops {
+                let n = if op.code == OP_PUSH || op.code == OP_POP { BURST[op.b as usize % BURST.len()] } else { 1 };
+                for _ in 0..n {
+                    ex.push(Op { code: op.code, a: op.a, b: 0 });
+                }
+            }
+            return run_b::<ArrayBuf<Tagged, Array96>>(ArrayBuf::new(), ARRAY96, &ex, run);
+        }
         if cfg.mode == 2 {
             let c = cfg.x as usize;
             return match (cfg.y, cfg.x) {
@@ -114,6 +158,7 @@ impl World for RingBufWorld {
             match cfg.mode {
                 1 => "new()",
                 2 => "with_capacity(), zero-sized elements",
+                3 => "over a user provided RealArray newtype of 96 slots, bursts, indices rotated by x first, x",
                 _ => "with_capacity()",
             },
             cfg.x
